@@ -271,7 +271,7 @@ impl Ctx {
         if let Ok(txt) = std::fs::read_to_string(&kf) {
             for line in txt.lines() {
                 let line = line.trim();
-                if line.is_empty() || line.starts_with('#') {
+                if line.is_empty() || line.starts_with('#') || line.starts_with("fixed:") {
                     continue;
                 }
                 match serde_json::from_str::<KnownFinding>(line) {
@@ -368,6 +368,31 @@ impl Ctx {
             println!("  detail: {d}");
             v.push((sig.to_string(), detail.to_string(), path.display().to_string()));
         }
+    }
+
+    /// saved regression cases (data/regress/<PROP>-*.json) for a sub-check
+    fn regress_cases(&self, sub: &str) -> Vec<(String, Json)> {
+        let mut out = vec![];
+        let dir = self.root.join("data").join("regress");
+        let mut names: Vec<_> = match std::fs::read_dir(&dir) {
+            Ok(rd) => rd.filter_map(|e| e.ok()).map(|e| e.path()).collect(),
+            Err(_) => return out,
+        };
+        names.sort();
+        for p in names {
+            let fname = p.file_name().and_then(|s| s.to_str()).unwrap_or("").to_string();
+            if !fname.starts_with(&format!("{}-", self.prop)) || !fname.ends_with(".json") {
+                continue;
+            }
+            if let Ok(txt) = std::fs::read_to_string(&p) {
+                if let Ok(j) = serde_json::from_str::<Json>(&txt) {
+                    if j["sub"].as_str() == Some(sub) {
+                        out.push((fname, j["ir"].clone()));
+                    }
+                }
+            }
+        }
+        out
     }
 
     /// Evaluate one case: run the property function under panic capture.
@@ -469,6 +494,19 @@ impl Ctx {
         let nthreads = self.threads.min(cases as usize).max(1);
         let stop = AtomicBool::new(false);
         let total = Mutex::new(Acc::default());
+        // replay tier: saved regression cases of this sub-check run first, every time
+        for (path, ir) in self.regress_cases(name) {
+            match serde_json::from_value::<T>(ir) {
+                Ok(v) => {
+                    let obs = Self::eval(name, &f, &v);
+                    self.account(&mut total.lock().unwrap(), &obs, &v);
+                    if let Some((sig, detail)) = self.first_unknown(&obs) {
+                        self.record_violation(name, sig, &format!("(regression case {path}) {detail}"), &v);
+                    }
+                }
+                Err(e) => self.infra(format!("{name}: cannot decode regression case {path}: {e}")),
+            }
+        }
         let mk_strategy = &mk_strategy;
         std::thread::scope(|s| {
             for w in 0..nthreads {
